@@ -98,7 +98,7 @@ fn child_hist(args: &Args, foreign: bool) {
         if fresh.remaining(1, 0, vcs::Kind::Span) < 6 || fresh.remaining(3, 1, vcs::Kind::Event) < 6 {
             fresh = Arc::new(Fresh::new());
         }
-        let o = run_history(args.seed, idx, fresh.clone(), Weights { foreign, c06: false }, 48);
+        let o = run_history(args.seed, idx, fresh.clone(), Weights { foreign, c06: false, own_only: false }, 48);
         out.evals += o.trace.len() as u64;
         out.count(if foreign { "histories_with_foreign_default_segments" } else { "histories" }, 1);
         if o.tainted { out.count("histories_tainted_by_a_foreign_default_step", 1); }
